@@ -23,6 +23,7 @@ def _lib():
         "cp": L.CPhaseGate, "swap": L.SwapGate, "iswap": L.iSwapGate, "dcx": L.DCXGate, "rzx": L.RZXGate,
         "xx_plus_yy": L.XXPlusYYGate, "xx_minus_yy": L.XXMinusYYGate, "ccx": L.CCXGate, "cswap": L.CSwapGate, "ccz": L.CCZGate, "u": L.UGate,
         "rccx": L.RCCXGate, "c3x": L.C3XGate, "rcccx": L.RC3XGate,
+        "r": L.RGate, "u1": L.U1Gate, "u2": L.U2Gate, "u3": L.U3Gate,
         "reset": Reset, "measure": Measure, "qpd_measure": QPDMeasure, "move": Move, "cut_wire": CutWire,
         "global_phase": L.GlobalPhaseGate,
     }
